@@ -1649,12 +1649,18 @@ impl Relation {
         builder.token(R_ANGLE.into(), ">");
         builder.finish_node();
 
-        let node_profiles = self.0.children().find(|n| n.kind() == PROFILES);
+        let node_profiles = self.0.children().filter(|n| n.kind() == PROFILES).last();
         if let Some(node_profiles) = node_profiles {
+            // Add another restriction list after the existing ones
+            let mut ws = GreenNodeBuilder::new();
+            ws.start_node(PROFILES.into());
+            ws.token(WHITESPACE.into(), " ");
+            ws.finish_node();
+            let space = SyntaxNode::new_root_mut(ws.finish()).first_token().unwrap();
             let new_root = SyntaxNode::new_root_mut(builder.finish());
             self.0.splice_children(
-                node_profiles.index()..node_profiles.index() + 1,
-                vec![new_root.into()],
+                node_profiles.index() + 1..node_profiles.index() + 1,
+                vec![space.into(), new_root.into()],
             );
         } else {
             let idx = self.0.children_with_tokens().count();
